@@ -4,6 +4,7 @@
 #include <OpenVolumeMesh/Core/detail/internal_type_name.hh>
 #include <OpenVolumeMesh/IO/detail/WriteBuffer.hh>
 #include <OpenVolumeMesh/IO/detail/exceptions.hh>
+#include <type_traits>
 
 
 namespace OpenVolumeMesh::IO {
@@ -128,6 +129,10 @@ struct Primitive {
         enc.write(val);
     }
     static void decode(Decoder &reader, T &val) {
+        if constexpr (std::is_arithmetic_v<T>) {
+            // Decoder's primitive reads are unchecked
+            reader.need(sizeof(T));
+        }
         reader.read(val);
     }
 };
@@ -140,6 +145,7 @@ struct OVMHandle {
         enc.write(val.idx());
     }
     static void decode(Decoder &reader, T &val) {
+        reader.need(sizeof(val.idx()));
         reader.read(val.idx_mutable());
     }
 };
